@@ -8,32 +8,47 @@ package v6ref
 // 00) is ""; a trailing partial name (labels running exactly to the end of the
 // buffer without the terminating 00) is represented like a complete one.
 //
-// Classes:
+// Classes decided here (context-free):
 //
-//	Accept       plain labels (1..63 octets each) ended by 00; a name ended by a
-//	             single-level compression pointer whose target holds plain
-//	             labels ended by 00 inside the buffer; a trailing partial name;
-//	             the empty buffer (no names)
-//	MayReject    the target of a pointer itself ends in a pointer (chain)
+//	Accept       plain labels (1..63 octets each) ended by 00; a trailing partial
+//	             name (reported in nameInfo, the option decides); the empty
+//	             buffer (no names)
+//	MayReject    any compression pointer whose target resolves (RFC 8415 §10:
+//	             names in DHCP "MUST NOT be stored in compressed form"; a decoder
+//	             may still follow them) — single level or chain; a root name
+//	             (zero labels)
 //	Reject       a label or the second pointer octet overruns the buffer
 //	Unspecified  label types 01/10; a pointer whose offset is outside the
 //	             buffer; a target whose labels run to the end of the buffer
 //	             without 00; pointers that loop; a name longer than 255 octets
-func nameList(b []byte, build bool) (names []string, v Verdict, why string) {
+//
+// The option-specific two-valued classes (partial name outside option 39, more
+// than one name in 39 and 56/3, empty list in 24) are applied by the caller from
+// nameInfo.
+type nameInfo struct {
+	count   int  // number of names
+	partial bool // the last name has no terminating 00
+}
+
+func nameList(b []byte, build bool) (names []string, v Verdict, why string, info nameInfo) {
 	n := len(b)
 	pos := 0
 	var cur []byte // joined labels of the name being read (build only)
 	labels := 0    // labels in the name being read
 	octets := 0    // wire octets of those labels
-	long, chain := false, false
+	long, chain, ptr, root := false, false, false, false
 	finish := func() {
 		if octets+1 > 255 {
 			long = true
+		}
+		if labels == 0 {
+			root = true
 		}
 		if build {
 			names = append(names, string(cur))
 			cur = cur[:0]
 		}
+		info.count++
 		labels, octets = 0, 0
 	}
 	label := func(l []byte) {
@@ -54,17 +69,18 @@ func nameList(b []byte, build bool) (names []string, v Verdict, why string) {
 			finish()
 		case x&0xc0 == 0xc0:
 			if pos+1 >= n {
-				return nil, Reject, "name: compression pointer lacks its second octet"
+				return nil, Reject, "name: compression pointer lacks its second octet", info
 			}
 			q := (x&0x3f)<<8 | int(b[pos+1])
 			if q >= n {
-				return nil, Unspecified, WhyNamePtrOutside
+				return nil, Unspecified, WhyNamePtrOutside, info
 			}
+			ptr = true
 			hops := 0
 		target:
 			for {
 				if q >= n {
-					return nil, Unspecified, WhyNamePtrUnterminated
+					return nil, Unspecified, WhyNamePtrUnterminated, info
 				}
 				y := int(b[q])
 				switch {
@@ -72,22 +88,22 @@ func nameList(b []byte, build bool) (names []string, v Verdict, why string) {
 					break target
 				case y&0xc0 == 0xc0:
 					if q+1 >= n {
-						return nil, Reject, "name: compression pointer lacks its second octet"
+						return nil, Reject, "name: compression pointer lacks its second octet", info
 					}
 					chain = true
 					hops++
 					if hops > n {
-						return nil, Unspecified, WhyNamePtrLoop
+						return nil, Unspecified, WhyNamePtrLoop, info
 					}
 					q = (y&0x3f)<<8 | int(b[q+1])
 					if q >= n {
-						return nil, Unspecified, WhyNamePtrOutside
+						return nil, Unspecified, WhyNamePtrOutside, info
 					}
 				case y&0xc0 != 0:
-					return nil, Unspecified, WhyNameReserved
+					return nil, Unspecified, WhyNameReserved, info
 				default:
 					if q+1+y > n {
-						return nil, Reject, "name: label overruns the option"
+						return nil, Reject, "name: label overruns the option", info
 					}
 					label(b[q+1 : q+1+y])
 					q += 1 + y
@@ -96,10 +112,10 @@ func nameList(b []byte, build bool) (names []string, v Verdict, why string) {
 			pos += 2
 			finish()
 		case x&0xc0 != 0:
-			return nil, Unspecified, WhyNameReserved
+			return nil, Unspecified, WhyNameReserved, info
 		default:
 			if pos+1+x > n {
-				return nil, Reject, "name: label overruns the option"
+				return nil, Reject, "name: label overruns the option", info
 			}
 			label(b[pos+1 : pos+1+x])
 			pos += 1 + x
@@ -107,17 +123,22 @@ func nameList(b []byte, build bool) (names []string, v Verdict, why string) {
 	}
 	if labels > 0 {
 		finish() // trailing partial name
-	}
-	switch {
-	case long:
-		return nil, Unspecified, WhyNameLong
-	case chain:
-		return names, MayReject, WhyNamePtrChain
+		info.partial = true
 	}
 	if build && names == nil {
 		names = []string{}
 	}
-	return names, Accept, ""
+	switch {
+	case long:
+		return nil, Unspecified, WhyNameLong, info
+	case chain:
+		return names, MayReject, WhyNamePtrChain, info
+	case ptr:
+		return names, MayReject, WhyNameCompressed, info
+	case root:
+		return names, MayReject, WhyNameRoot, info
+	}
+	return names, Accept, "", info
 }
 
 // EncodeNames writes names (labels joined with ".", "" = root) in the plain
